@@ -363,7 +363,7 @@ func (h *Handler) HandleDeleteFile(ctx *Context, path string) error {
 		return ErrWriteForbidden
 	}
 
-	if err := h.Fs.Remove(path); err != nil {
+	if err := h.remove(path, false); err != nil {
 		log.WarnContext(ctx, "Remove file failed", logutil.ErrorAttr(err))
 		return err
 	}
@@ -397,12 +397,42 @@ func (h *Handler) HandleRmdir(ctx *Context, path string) error {
 		return ErrWriteForbidden
 	}
 
-	if err := h.Fs.Remove(path); err != nil {
+	if err := h.remove(path, true); err != nil {
 		log.WarnContext(ctx, "Remove directory failed", logutil.ErrorAttr(err))
 		return err
 	}
 
 	return nil
+}
+
+// remove removes file (anything but directory, symlinks are not followed) or empty directory: Fs.Remove doesn't care what it removes.
+// Root directory is never removed.
+func (h *Handler) remove(path string, dir bool) error {
+	if filepath.Clean(string(filepath.Separator)+path) == string(filepath.Separator) {
+		return fmt.Errorf("root directory can't be removed")
+	}
+
+	var (
+		info fs.FileInfo
+		err  error
+	)
+	if lstater, ok := h.Fs.(afero.Lstater); ok {
+		info, _, err = lstater.LstatIfPossible(path)
+	} else {
+		info, err = h.Fs.Stat(path)
+	}
+	if err != nil {
+		return err
+	}
+
+	switch {
+	case dir && !info.IsDir():
+		return fmt.Errorf("%s is not a directory", path)
+	case !dir && info.IsDir():
+		return fmt.Errorf("%s is a directory", path)
+	}
+
+	return h.Fs.Remove(path)
 }
 
 func (h *Handler) HandleGetDirSize(ctx *Context, path string) (int64, error) {
